@@ -94,25 +94,22 @@ func c19Setup() {
 	for i, f := range c19FFuncs {
 		c19FuncTok[reflect.ValueOf(f).Pointer()] = "fmt:" + strconv.Itoa(i)
 	}
-	// a private HOME with ~/.ssh/config but no ~/.ssh/known_hosts, plus named files
-	d, err := os.MkdirTemp("", "verif-c19-")
-	if err != nil {
+	// a private HOME with ~/.ssh/config but no ~/.ssh/known_hosts, plus named files; the path is
+	// fixed so that a recorded case line replays
+	d := filepath.Join(os.TempDir(), "verif-c19-env")
+	if err := os.MkdirAll(filepath.Join(d, ".ssh"), 0o755); err != nil {
 		panic(err)
 	}
 	c19Dir = d
-	os.MkdirAll(filepath.Join(d, ".ssh"), 0o755)
-	os.WriteFile(filepath.Join(d, ".ssh", "config"), []byte("# verif\n"), 0o644)
-	for _, n := range []string{"cfgA", "cfgB", "khA", "khB"} {
-		os.WriteFile(filepath.Join(d, n), []byte("# verif\n"), 0o644)
+	for _, n := range []string{".ssh/config", "cfgA", "cfgB", "khA", "khB"} {
+		if _, err := os.Stat(filepath.Join(d, n)); err != nil {
+			os.WriteFile(filepath.Join(d, n), []byte("# verif\n"), 0o644)
+		}
 	}
 	os.Setenv("HOME", d)
 }
 
-func c19Teardown() {
-	if c19Dir != "" {
-		os.RemoveAll(c19Dir)
-	}
-}
+func c19Teardown() {}
 
 // ---------------------------------------------------------------- rendering of the result
 
@@ -1712,6 +1709,24 @@ func runC19(c *ctx) {
 			k++
 		}
 		eval(cs, a, compat, res, i)
+	}
+	// observations outside the property's quantifier (reported, never gating)
+	if c.replay == "" {
+		for _, pr := range []struct {
+			what string
+			o    c19PlatOpt
+		}{
+			{"an integer YAML value (timeout-ops: 60) for the float option timeout-ops", c19PlatOpt{name: "timeout-ops", kind: 'i', n: 60}},
+			{"an integer YAML value (read-delay: 1) for the float option read-delay", c19PlatOpt{name: "read-delay", kind: 'i', n: 1}},
+			{"an option name the platform package does not recognise", c19PlatOpt{name: "no-such-option", kind: 'i', n: 1}},
+		} {
+			p := &c19Plat{driverType: "generic", opts: []c19PlatOpt{pr.o}}
+			out := runImpl("generic", p, nil)
+			res.Note("observation (out of domain): %s -> panicked=%v %s", pr.what, out.panicked, out.pmsg)
+		}
+		p := &c19Plat{driverType: "generic", opts: []c19PlatOpt{{name: "auth-strict-key", kind: 'b', b: true}}}
+		out := runImpl("generic", p, nil)
+		res.Note("observation: platform option auth-strict-key ignores its value: `auth-strict-key: true` gives SSHArgs.StrictKey=%s", showVal(out.fields["transport.SSHArgs.StrictKey"]))
 	}
 	// shrink the first failing case of every oracle signature (greedy removal of user options and
 	// platform options while the same signature still fails), so that the replay is small
